@@ -258,60 +258,17 @@ func (w *World) afterFirstSync() {
 	w.k1text = w.Kern.SaveAll()
 	d, e, sw := w.bestDiff(o)
 	w.states = append(w.states, fmt.Sprintf("pol=%d podchains=%d sets=%d d6=%v prior=%s", len(e.PolChain), len(e.Pods), len(e.Sets), sw.D6, w.priorDesc))
-	stale0 := staleRefs(w.k0, e)
 	if len(d) == 0 {
 		w.S.Stat("c15.converged")
 	} else {
 		w.unconverged = diffKinds(d)
 		w.S.Stat("c15.unconverged")
 	}
-	// which differences do the listed C15 switches predict?
-	var rest []DiffItem
-	var used []string
-	conflict := typeConflicts(w.k0, e)
-	if len(d) > 0 {
-		rest = d
-		if len(conflict) > 0 {
-			// createIPSet returns at the refused create: sets after it (map order) are not reconciled, syncRules
-			// returns before the policy batch and before the stale sets are destroyed - D8's consequences plus sets
-			rest = explainD8(rest, e)
-			var r2 []DiffItem
-			for _, x := range rest {
-				switch x.Kind {
-				case "set-type", "set-members", "missing-set":
-				default:
-					r2 = append(r2, x)
-				}
-			}
-			rest = r2
-			used = append(used, "set-type-conflict")
-		}
-		if len(stale0) > 0 {
-			rest = explainD8(rest, e)
-			used = append(used, "D8")
-		}
-		var u2 []string
-		rest, u2 = w.explainConvergence(rest, e, o)
-		if len(stale0) == 0 && len(conflict) == 0 {
-			used = u2 // with D8 in play the key stays "D8" (S1/S3 leftovers ride along, as before)
-		}
-	}
+	rest, used, stale0, conflict := w.explainAll(d, e, o)
 	if w.armed("C15") {
 		w.checkForeign("end of synchronisation")
 		if len(d) > 0 {
-			switch {
-			case len(rest) > 0:
-				w.fail("C15.not-converged", "unexplained:"+diffKinds(rest), "after a full synchronisation (prior state %s; switches that explain other differences: %v): %s",
-					w.priorDesc, used, diffText(rest, 8))
-			case len(conflict) > 0:
-				w.fail("C15.not-converged", "set-type-conflict", "a set of another type held a name galaxy needs when the synchronisation started (%s): %s",
-					strings.Join(conflict, ","), diffText(d, 6))
-			case len(stale0) > 0:
-				w.fail("C15.not-converged", "D8", "a stale policy chain was still in use when the synchronisation started (%s): %s",
-					strings.Join(stale0, ","), diffText(d, 6))
-			default:
-				w.fail("C15.not-converged", strings.Join(used, "+"), "after a full synchronisation: %s", diffText(d, 6))
-			}
+			w.failNotConverged("after a full synchronisation", d, rest, used, stale0, conflict)
 			return
 		}
 	}
@@ -330,6 +287,83 @@ func (w *World) afterFirstSync() {
 		}
 		w.judgeFlows(o, "after one full synchronisation")
 	}
+}
+
+// explainAll: which differences do the listed C15 switches predict? (w.k0 = the state the synchronisation started from)
+func (w *World) explainAll(d []DiffItem, e *Expected, o *Observed) (rest []DiffItem, used, stale0, conflict []string) {
+	stale0 = staleRefs(w.k0, e)
+	conflict = typeConflicts(w.k0, e)
+	if len(d) == 0 {
+		return
+	}
+	rest = d
+	if len(conflict) > 0 {
+		// createIPSet returns at the refused create: sets after it (map order) are not reconciled, syncRules
+		// returns before the policy batch and before the stale sets are destroyed - D8's consequences plus sets
+		rest = explainD8(rest, e)
+		var r2 []DiffItem
+		for _, x := range rest {
+			switch x.Kind {
+			case "set-type", "set-members", "missing-set":
+			default:
+				r2 = append(r2, x)
+			}
+		}
+		rest = r2
+		used = append(used, "set-type-conflict")
+	}
+	if len(stale0) > 0 {
+		rest = explainD8(rest, e)
+		used = append(used, "D8")
+	}
+	var u2 []string
+	rest, u2 = w.explainConvergence(rest, e, o)
+	if len(stale0) == 0 && len(conflict) == 0 {
+		used = u2 // with D8 in play the key stays "D8" (S1/S3 leftovers ride along, as before)
+	}
+	return
+}
+
+func (w *World) failNotConverged(when string, d, rest []DiffItem, used, stale0, conflict []string) {
+	switch {
+	case len(rest) > 0:
+		w.fail("C15.not-converged", "unexplained:"+diffKinds(rest), "%s (prior state %s; switches that explain other differences: %v): %s",
+			when, w.priorDesc, used, diffText(rest, 8))
+	case len(conflict) > 0:
+		w.fail("C15.not-converged", "set-type-conflict", "%s: a set of another type held a name galaxy needs when the synchronisation started (%s): %s",
+			when, strings.Join(conflict, ","), diffText(d, 6))
+	case len(stale0) > 0:
+		w.fail("C15.not-converged", "D8", "%s: a stale policy chain was still in use when the synchronisation started (%s): %s",
+			when, strings.Join(stale0, ","), diffText(d, 6))
+	default:
+		w.fail("C15.not-converged", strings.Join(used, "+"), "%s: %s", when, diffText(d, 6))
+	}
+}
+
+// checkSyncConverged is C15's convergence clause for the full synchronisations that happen DURING the history: every
+// policy handler (Add/Update/DeletePolicy run syncNetworkPolices + rules + pods) and every periodic Run is "a full
+// synchronisation", and what it must arrive at is what the informer views showed while it ran (handlers run one at
+// a time, so the views did not move). Judged as soon as the task has ended, before anything else happens.
+func (w *World) checkSyncConverged() {
+	what := w.convWhat
+	w.convPending = false
+	o := observe(w.Kern)
+	if o.perr != "" {
+		w.S.Infra = o.perr
+		w.S.Stop()
+		return
+	}
+	savedCl, savedK0 := w.cl, w.k0
+	w.cl, w.k0 = w.view, w.convK0
+	defer func() { w.cl, w.k0 = savedCl, savedK0 }()
+	d, e, _ := w.bestDiff(o)
+	if len(d) == 0 {
+		w.S.Stat("c15.converged-in-history")
+		return
+	}
+	w.S.Stat("c15.unconverged-in-history")
+	rest, used, stale0, conflict := w.explainAll(d, e, o)
+	w.failNotConverged("after the full synchronisation run by "+what, d, rest, used, stale0, conflict)
 }
 
 // typeConflicts lists the sets that exist under a name the current policies need, with another type.
